@@ -2,3 +2,4 @@ import PgmVerif.Model.Basic
 import PgmVerif.Model.Factor
 import PgmVerif.Model.BN
 import PgmVerif.Model.VE
+import PgmVerif.Model.CPD
